@@ -228,12 +228,210 @@ theorem run_toA (F : Nat) (l : L) (hok : costOK l = true) :
         cases rest.read pfx e1 r with
         | none => rfl
         | some t2 => obtain ⟨o2, e2, r2⟩ := t2; rfl
-  | kfld _ _ _ _ _ => simp [costOK] at hok
-  | key _ _ _ _ _ => simp [costOK] at hok
-  | mopt _ _ _ _ _ _ => simp [costOK] at hok
-  | vopt _ _ _ _ _ _ => simp [costOK] at hok
-  | mrep _ _ _ _ _ _ => simp [costOK] at hok
-  | vrep _ _ _ _ _ _ => simp [costOK] at hok
-  | srep _ _ _ _ _ => simp [costOK] at hok
-  | avail _ _ => simp [costOK] at hok
+  | kfld name p k rest ih =>
+    simp only [costOK] at hok
+    intro pfx e bs hF
+    simp only [toA, L.read]
+    rw [A.run_bind, run_primA F p bs hF]
+    cases h1 : p.decode bs with
+    | none => rfl
+    | some t =>
+      obtain ⟨v, r⟩ := t
+      have hr : r.length ≤ bs.length := by
+        have h2 := run_primA F p bs hF; rw [h1] at h2; exact A.run_length_le _ _ _ _ h2
+      simp only
+      rw [A.run_map, ih hok pfx e r (by omega)]
+      cases rest.read pfx e r with
+      | none => rfl
+      | some t2 => obtain ⟨o, e', r'⟩ := t2; rfl
+  | key name p vn rest ih =>
+    simp only [costOK] at hok
+    intro pfx e bs hF
+    simp only [toA, L.read]
+    rw [A.run_bind, run_primA F p bs hF]
+    cases h1 : p.decode bs with
+    | none => rfl
+    | some t =>
+      obtain ⟨v, r⟩ := t
+      have hr : r.length ≤ bs.length := by
+        have h2 := run_primA F p bs hF; rw [h1] at h2; exact A.run_length_le _ _ _ _ h2
+      simp only
+      rw [A.run_map, ih hok pfx _ r (by omega)]
+      cases rest.read pfx (e.set vn v.toInt) r with
+      | none => rfl
+      | some t2 => obtain ⟨o, e', r'⟩ := t2; rfl
+  | mopt m name body rest ihb ihr =>
+    simp only [costOK, Bool.and_eq_true] at hok
+    intro pfx e bs hF
+    simp only [toA, L.read]
+    rw [A.run_bind, run_primA F .u8 bs hF]
+    cases h1 : Layout.Prim.decode .u8 bs with
+    | none => rfl
+    | some t =>
+      obtain ⟨flag, r⟩ := t
+      have hr : r.length ≤ bs.length := by
+        have h2 := run_primA F .u8 bs hF; rw [h1] at h2; exact A.run_length_le _ _ _ _ h2
+      simp only
+      split
+      · rw [A.run_bind, ihb hok.1 pfx e r (by omega)]
+        cases h3 : body.read pfx e r with
+        | none => rfl
+        | some t1 =>
+          obtain ⟨o1, e1, r1⟩ := t1
+          have hr1 : r1.length ≤ r.length := by
+            have h4 := ihb hok.1 pfx e r (by omega); rw [h3] at h4; exact A.run_length_le _ _ _ _ h4
+          simp only [Option.map_some, reshape]
+          rw [A.run_map, ihr hok.2 pfx e1 r1 (by omega)]
+          cases rest.read pfx e1 r1 with
+          | none => rfl
+          | some t2 => obtain ⟨o2, e2, r2⟩ := t2; rfl
+      · rw [A.run_map, ihr hok.2 pfx e r (by omega)]
+        cases rest.read pfx e r with
+        | none => rfl
+        | some t2 => obtain ⟨o2, e2, r2⟩ := t2; rfl
+  | vopt vn name body rest ihb ihr =>
+    simp only [costOK, Bool.and_eq_true] at hok
+    intro pfx e bs hF
+    simp only [toA, L.read]
+    rw [A.run_bind, run_primA F .u8 bs hF]
+    cases h1 : Layout.Prim.decode .u8 bs with
+    | none => rfl
+    | some t =>
+      obtain ⟨flag, r⟩ := t
+      have hr : r.length ≤ bs.length := by
+        have h2 := run_primA F .u8 bs hF; rw [h1] at h2; exact A.run_length_le _ _ _ _ h2
+      simp only
+      split
+      · rw [A.run_bind, ihb hok.1 pfx _ r (by omega)]
+        cases h3 : body.read pfx (e.set vn flag.toInt) r with
+        | none => rfl
+        | some t1 =>
+          obtain ⟨o1, e1, r1⟩ := t1
+          have hr1 : r1.length ≤ r.length := by
+            have h4 := ihb hok.1 pfx (e.set vn flag.toInt) r (by omega); rw [h3] at h4; exact A.run_length_le _ _ _ _ h4
+          simp only [Option.map_some, reshape]
+          rw [A.run_map, ihr hok.2 pfx e1 r1 (by omega)]
+          cases rest.read pfx e1 r1 with
+          | none => rfl
+          | some t2 => obtain ⟨o2, e2, r2⟩ := t2; rfl
+      · rw [A.run_map, ihr hok.2 pfx _ r (by omega)]
+        cases rest.read pfx (e.set vn 0) r with
+        | none => rfl
+        | some t2 => obtain ⟨o2, e2, r2⟩ := t2; rfl
+  | mrep m name body rest ihb ihr =>
+    simp only [costOK, Bool.and_eq_true] at hok
+    intro pfx e bs hF
+    simp only [toA, L.read]
+    rw [A.run_bind, run_primA F .u8 bs hF]
+    cases h1 : Layout.Prim.decode .u8 bs with
+    | none => rfl
+    | some t =>
+      obtain ⟨b, r⟩ := t
+      have hr : r.length ≤ bs.length := by
+        have h2 := run_primA F .u8 bs hF; rw [h1] at h2; exact A.run_length_le _ _ _ _ h2
+      simp only
+      split
+      · rw [A.run_map, ihr hok.2 pfx _ r (by omega)]
+        cases rest.read pfx (e.set "" 0) r with
+        | none => rfl
+        | some t2 => obtain ⟨o2, e2, r2⟩ := t2; rfl
+      · rw [A.run_bind, A.run_ofP]
+        have hite : P.run (if b.toInt ≤ 8 then Prim.decDecimalLen b.toInt.toNat else Prim.decDecimal) r =
+            (if b.toInt ≤ 8 then P.run (Prim.decDecimalLen b.toInt.toNat) r else P.run Prim.decDecimal r) := by
+          split <;> rfl
+        rw [← hite]
+        cases h2 : P.run (if b.toInt ≤ 8 then Prim.decDecimalLen b.toInt.toNat else Prim.decDecimal) r with
+        | none => rfl
+        | some t0 =>
+          obtain ⟨n, r0⟩ := t0
+          have hr0 := P.run_length_le _ _ _ _ h2
+          simp only
+          have hel := run_elemsA F (fun q e' => toA F body q e') (fun q => body.read q)
+            (fun q e' bs' h => ihb hok.1 q e' bs' h) pfx name n.toNat 0 (e.set "" b.toInt) r0 (by omega)
+          rw [A.run_bind, hel]
+          cases h3 : Layout.readElems (fun q => body.read q) pfx name 0 n.toNat (e.set "" b.toInt) r0 with
+          | none => rfl
+          | some t1 =>
+            obtain ⟨o1, e1, r1⟩ := t1
+            have hr1 : r1.length ≤ r0.length := by
+              rw [h3] at hel; exact A.run_length_le _ _ _ _ hel
+            simp only [Option.map_some, reshape]
+            rw [A.run_map, ihr hok.2 pfx e1 r1 (by omega)]
+            cases rest.read pfx e1 r1 with
+            | none => rfl
+            | some t2 => obtain ⟨o2, e2, r2⟩ := t2; rfl
+  | vrep vn name body rest ihb ihr =>
+    simp only [costOK, Bool.and_eq_true] at hok
+    intro pfx e bs hF
+    simp only [toA, L.read]
+    rw [A.run_bind, run_primA F .u8 bs hF]
+    cases h1 : Layout.Prim.decode .u8 bs with
+    | none => rfl
+    | some t =>
+      obtain ⟨b, r⟩ := t
+      have hr : r.length ≤ bs.length := by
+        have h2 := run_primA F .u8 bs hF; rw [h1] at h2; exact A.run_length_le _ _ _ _ h2
+      simp only
+      split
+      · rw [A.run_map, ihr hok.2 pfx _ r (by omega)]
+        cases rest.read pfx (e.set vn 0) r with
+        | none => rfl
+        | some t2 => obtain ⟨o2, e2, r2⟩ := t2; rfl
+      · rw [A.run_bind, A.run_ofP]
+        have hite : P.run (if b.toInt ≤ 8 then Prim.decDecimalLen b.toInt.toNat else Prim.decDecimal) r =
+            (if b.toInt ≤ 8 then P.run (Prim.decDecimalLen b.toInt.toNat) r else P.run Prim.decDecimal r) := by
+          split <;> rfl
+        rw [← hite]
+        cases h2 : P.run (if b.toInt ≤ 8 then Prim.decDecimalLen b.toInt.toNat else Prim.decDecimal) r with
+        | none => rfl
+        | some t0 =>
+          obtain ⟨n, r0⟩ := t0
+          have hr0 := P.run_length_le _ _ _ _ h2
+          simp only
+          have hel := run_elemsA F (fun q e' => toA F body q e') (fun q => body.read q)
+            (fun q e' bs' h => ihb hok.1 q e' bs' h) pfx name n.toNat 0 (e.set vn b.toInt) r0 (by omega)
+          rw [A.run_bind, hel]
+          cases h3 : Layout.readElems (fun q => body.read q) pfx name 0 n.toNat (e.set vn b.toInt) r0 with
+          | none => rfl
+          | some t1 =>
+            obtain ⟨o1, e1, r1⟩ := t1
+            have hr1 : r1.length ≤ r0.length := by
+              rw [h3] at hel; exact A.run_length_le _ _ _ _ hel
+            simp only [Option.map_some, reshape]
+            rw [A.run_map, ihr hok.2 pfx e1 r1 (by omega)]
+            cases rest.read pfx e1 r1 with
+            | none => rfl
+            | some t2 => obtain ⟨o2, e2, r2⟩ := t2; rfl
+  | srep cnt body rest ihb ihr =>
+    simp only [costOK, Bool.and_eq_true] at hok
+    intro pfx e bs hF
+    simp only [toA, L.read]
+    rw [A.run_bind, run_primA F cnt bs hF]
+    cases h1 : cnt.decode bs with
+    | none => rfl
+    | some t =>
+      obtain ⟨n, r⟩ := t
+      have hr : r.length ≤ bs.length := by
+        have h2 := run_primA F cnt bs hF; rw [h1] at h2; exact A.run_length_le _ _ _ _ h2
+      simp only
+      have hel := run_elemsA F (fun q e' => toA F body q e') (fun q => body.read q)
+        (fun q e' bs' h => ihb hok.1 q e' bs' h) pfx "" n.toInt.toNat 0 e r (by omega)
+      rw [A.run_bind, hel]
+      cases h3 : Layout.readElems (fun q => body.read q) pfx "" 0 n.toInt.toNat e r with
+      | none => rfl
+      | some t1 =>
+        obtain ⟨o1, e1, r1⟩ := t1
+        have hr1 : r1.length ≤ r.length := by
+          rw [h3] at hel; exact A.run_length_le _ _ _ _ hel
+        simp only [Option.map_some, reshape]
+        exact ihr hok.2 pfx e1 r1 (by omega)
+  | avail body ih =>
+    simp only [costOK] at hok
+    intro pfx e bs hF
+    simp only [toA, L.read, A.run]
+    split
+    · rename_i hb
+      have : bs = [] := by simpa using hb
+      subst this; rfl
+    · exact ih hok pfx e bs hF
 end FailClosed
